@@ -122,7 +122,7 @@ def gen_case(rng, cancel=False):
 
 
 def gen(rng, tier):
-    for _ in range(700 if tier == "quick" else 12000):
+    for _ in range(700 if tier == "quick" else 4000):
         yield gen_case(rng, cancel=False)
 
 
